@@ -377,6 +377,34 @@ def run(rep: Report, tier: str) -> None:
                                 f"if cond then <{_tk}> else <{_ek}> at component level: the result is declared nullable={getattr(_res, 'nullable', None)}; it must be nullable={_want} "
                                 f"(a null in either branch reaches the result): the returned structure otherwise promises a non-nullable component whose data has nulls - and `calc identifier` accepts it"))
     rep.floor("R10.9 cases", _n9, 10)
+    # R10.9 (cont.): the same at dataset level - then / else datasets whose measure differs in nullability and type
+    _n9d = 0
+    for _tn, _en in ((False, True), (True, False), (False, False), (True, True)):
+        for _tt, _et in (("Integer", "Number"), ("Number", "Number")):
+            _cd = _M.ds("DS_c", ["Id_1"], ["cond"])
+            _cd.components["cond"].data_type = _CV(f"{_DT}.Boolean")
+            _td, _ed = _M.ds("DS_1", ["Id_1"], ["Me_1"]), _M.ds("DS_2", ["Id_1"], ["Me_1"])
+            _td.components["Id_1"] = _ed.components["Id_1"] = _cd.components["Id_1"]  # the three datasets have the same identifier (components compare by identity in the model)
+            _td.components["Me_1"].data_type, _td.components["Me_1"].nullable = _CV(f"{_DT}.{_tt}"), _tn
+            _ed.components["Me_1"].data_type, _ed.components["Me_1"].nullable = _CV(f"{_DT}.{_et}"), _en
+            _extd = {"VirtualCounter._new_ds_name": lambda: "__DS__", "VirtualCounter._new_dc_name": lambda: "__DC__", "isinstance": _sm._isinstance, "Dataset": _M.mk_dataset,
+                     "Component": lambda **kw: _sm.MComp(kw["name"], kw["role"], kw.get("data_type"), kw.get("nullable", True))}
+            try:
+                _resd = _I9(P, externals=_extd, max_steps=40000).call(_fif, {"condition": _cd, "true_branch": _td, "false_branch": _ed}, bound_cls=_CV("vtlengine.Operators.Conditional.If"))
+                _gotd = (getattr(_resd.components["Me_1"].data_type, "short", "?"), _resd.components["Me_1"].nullable)
+            except _Unm8 as e:
+                raise AnalysisError(f"R10.9: If.validate (dataset level) outside the evaluator's language: {e}")
+            except _R9 as e:
+                _gotd = (f"<raises {getattr(e.exc, 'code', None)}>", None)
+            _wantd = ("Number" if "Number" in (_tt, _et) else "Integer", _tn or _en)
+            _n9d += 1
+            rep.instance("R10.9", f"if-dataset/{_tt}:{_tn}/{_et}:{_en}", nontrivial=True, sample={"then": [_tt, _tn], "else": [_et, _en], "result": list(_gotd)})
+            if _gotd != _wantd or (_td.components["Me_1"].data_type.short, _ed.components["Me_1"].data_type.short) != (_tt, _et):
+                rep.add(Finding("R10.9", f"R10.9/if-dataset/{_tt}:{_tn}/{_et}:{_en}", _fif.module.rel, _fif.node.lineno, _fif.qualname,
+                                f"if DS_c then DS_1 else DS_2 with Me_1 ({_tt}, nullable={_tn}) / ({_et}, nullable={_en}): the result declares Me_1 {_gotd}, expected {_wantd}; the branch operands "
+                                f"afterwards declare ({_td.components['Me_1'].data_type.short}, {_ed.components['Me_1'].data_type.short}) - they must keep ({_tt}, {_et}): a null or a 2.5 of "
+                                f"the else branch reaches a result declared not nullable / Integer, and a retyped operand changes what later statements see"))
+    rep.floor("R10.9 dataset-level cases", _n9d, 8)
     # ---- R10.6: membership DS#comp: validator == structure builder == SELECT list (finite model) ----
     rep.rule("R10.6", "membership: the components semantic analysis declares == the transpiler's intermediate structure == the columns the SQL selects")
     from sa.e6 import Unmodelled as _Unm
